@@ -173,6 +173,10 @@ l20:
   goto l50;
 l30:
   /* (2) continued fraction */
+  // Far in the upper tail the complement factor * (continued fraction) is below the range of double:
+  // the result is 1 (for very large x the terms of the continued fraction overflow and it never converges).
+  if (factor == 0 || x > NumConstants::VERY_BIG())
+    return 1;
   a = 1 - p;   b = a + x + 1;  term = 0;
   pn[0] = 1;  pn[1] = x;  pn[2] = x + 1;  pn[3] = x * b;
   gin = pn[2] / pn[3];
